@@ -788,10 +788,10 @@ DIRECTED = {
         "wire.go": '//go:build wireinject\n\npackage main\n\nimport (\n\t"github.com/google/wire"\n\n\t"vscratch/NAME/defaults"\n)\n\nfunc InitApp() *App {\n\twire.Build(wire.Value(defaults.Server.Name), NewApp)\n\treturn nil\n}\n'},
     # a channel whose element type lives in another package, as a struct field filled by wire.Struct and as an injector result
     "chan_of_external_type": {
-        "sig/sig.go": 'package sig\n\ntype Event struct{ N int }\n\nfunc NewEvents() chan Event { return make(chan Event, 3) }\nfunc NewDone() <-chan *Event { return make(chan *Event, 2) }\n',
-        "t.go": 'package main\n\nimport "vscratch/NAME/sig"\n\ntype Hub struct {\n\tEvents chan sig.Event\n\tDone   <-chan *sig.Event\n}\n',
-        "main.go": 'package main\n\nfunc main() { h := InitHub(); println(cap(h.Events), cap(h.Done), cap(InitEvents())) }\n',
-        "wire.go": '//go:build wireinject\n\npackage main\n\nimport (\n\t"github.com/google/wire"\n\n\t"vscratch/NAME/sig"\n)\n\nfunc InitHub() *Hub {\n\twire.Build(sig.NewEvents, sig.NewDone, wire.Struct(new(Hub), "*"))\n\treturn nil\n}\n\nfunc InitEvents() chan sig.Event {\n\twire.Build(sig.NewEvents)\n\treturn nil\n}\n'},
+        "sig/sig.go": 'package sig\n\ntype Event struct{ N int }\n\nfunc NewEvents() chan Event { return make(chan Event, 3) }\nfunc NewDone() <-chan *Event { return make(chan *Event, 2) }\nfunc NewSubs() chan (<-chan Event) { return make(chan (<-chan Event), 4) }\n',
+        "t.go": 'package main\n\nimport "vscratch/NAME/sig"\n\ntype Hub struct {\n\tEvents chan sig.Event\n\tDone   <-chan *sig.Event\n\tSubs   chan (<-chan sig.Event)\n}\n',
+        "main.go": 'package main\n\nfunc main() { h := InitHub(); println(cap(h.Events), cap(h.Done), cap(h.Subs), cap(InitEvents())) }\n',
+        "wire.go": '//go:build wireinject\n\npackage main\n\nimport (\n\t"github.com/google/wire"\n\n\t"vscratch/NAME/sig"\n)\n\nfunc InitHub() *Hub {\n\twire.Build(sig.NewEvents, sig.NewDone, sig.NewSubs, wire.Struct(new(Hub), "*"))\n\treturn nil\n}\n\nfunc InitEvents() chan sig.Event {\n\twire.Build(sig.NewEvents)\n\treturn nil\n}\n'},
     # unexported fields of structs of the migrated package itself: wire.Struct("*") fills them, wire.FieldsOf exposes them
     "unexported_fields_same_package": {
         "t.go": 'package main\n\ntype Port int\ntype Seed int\ntype Tick int\n\ntype Clock struct{ t Tick }\n\nfunc NewClock(t Tick) *Clock { return &Clock{t: t} }\n\ntype Conf struct {\n\tport Port\n\tName string\n}\n\nfunc NewConf(s Seed) *Conf { return &Conf{port: Port(s) + 1000, Name: "n"} }\n\ntype Store struct{ P Port }\n\nfunc NewStore(p Port) *Store { return &Store{P: p} }\n\ntype Svc struct {\n\tclock *Clock\n\tstore *Store\n}\n',
